@@ -161,12 +161,44 @@ def check(run, prog, tier):
            what="flush_message consumes bytes although send() failed or would block")
 
     # ---- C14-c
-    allowed = {"add_message", "add_vmessage", "flush_message", "new_interactive", "create_test_interactive"}
+    setup = {"new_interactive", "create_test_interactive"}
+    allowed = {"message_producer": {"add_message", "add_vmessage"} | setup,
+               "message_consumer": {"flush_message"} | setup,
+               "message_length": {"add_message", "add_vmessage", "flush_message"} | setup}
     for field in ("message_producer", "message_consumer", "message_length"):
         ws = set()
+        odd = []
         for f in prog.functions():
             for b, i, n in f.nodes():
-                if (n.get("k") == "Asg" and fld(n["L"], field)) or (n.get("k") == "Un" and n.get("op") in ("++", "--", "&") and fld(n["e"], field)):
+                is_w = (n.get("k") == "Asg" and fld(n["L"], field)) or (n.get("k") == "Un" and n.get("op") in ("++", "--", "&") and fld(n["e"], field))
+                if not is_w:
+                    continue
+                if f.name in setup:
                     ws.add(f.name)
-        run.ob("C14-c", "writers:" + field, ws <= allowed and bool(ws), "%s written by %s" % (field, sorted(ws)), comm.funcs["add_message"].file, None, None,
-               what="%s written outside the ring API: %s" % (field, sorted(ws - allowed)))
+                    continue
+                # the ring's own updates: modular advance / length++ / length -= sent
+                regular = False
+                if n.get("k") == "Asg" and field in ("message_producer", "message_consumer"):
+                    r = strip(n["R"])
+                    regular = r.get("k") == "Bin" and r.get("op") == "%" and const_val(r["R"]) == SIZE and fld(strip(r["L"]).get("L") if strip(r["L"]).get("k") == "Bin" else None, field) is not None
+                elif field == "message_length":
+                    regular = (n.get("k") == "Un" and n.get("op") == "++") or (n.get("k") == "Asg" and n.get("op") == "-=")
+                if regular:
+                    ws.add(f.name)
+                    continue
+                # any other write (e.g. a rewind to 0) is only sound while the ring is empty: message_length == 0
+                empty = any(atom_of(c, t)[0] == "==" and fld(atom_of(c, t)[1], "message_length") and const_val(atom_of(c, t)[2]) == 0 for c, t, B in cfgq.guards(f, b.id)) or \
+                    any(atom_of(c, t)[0] == "false" and fld(atom_of(c, t)[1], "message_length") for c, t, B in cfgq.guards(f, b.id))
+                rv = n.get("R")
+                while isinstance(rv, dict) and strip(rv).get("k") == "Asg":
+                    rv = strip(rv)["R"]
+                if empty and const_val(rv) is not None:
+                    ws.add(f.name + "(rewind while empty)")
+                else:
+                    odd.append("%s:%s: %s" % (f.name, n.get("l"), show(n)))
+        plain = {w.split("(")[0] for w in ws}
+        okw = plain <= allowed[field] | {"add_message", "add_vmessage", "flush_message"} and not odd and bool(ws)
+        # regular updates must come from the allowed writers of that field
+        reg_bad = {w for w in ws if "(" not in w and w not in allowed[field]}
+        run.ob("C14-c", "writers:" + field, okw and not reg_bad, "%s written by %s%s" % (field, sorted(ws), ("; irregular writes: %s" % odd) if odd else ""), comm.funcs["add_message"].file, None, None,
+               what="%s is written outside the ring protocol: %s" % (field, odd or sorted(reg_bad)))
